@@ -600,9 +600,14 @@ fn p_sorted_uint_vec(b: &[u8], _: u64) -> R {
 fn seeds_sorted_uint_vec(r: &mut Rng) -> Vec<Seed> {
     use zipora::blob_store::{SortedUintVecBuilder, SortedUintVecConfig};
     let mut v = vec![];
-    for (cfg, n) in [(SortedUintVecConfig::default(), 200u64), (SortedUintVecConfig::performance_optimized(), 70), (SortedUintVecConfig::memory_optimized(), 5), (SortedUintVecConfig::default(), 0)] {
-        let mut acc = 0u64;
-        let vals: Vec<u64> = (0..n).map(|_| { acc += r.below(300); acc }).collect();
+    // the last two: 64-bit samples (the only width whose sample plus a delta can leave u64), values next to u64::MAX
+    let wide = SortedUintVecConfig { log2_block_units: 4, offset_width: 8, sample_width: 64, use_simd: false };
+    let wide_simd = SortedUintVecConfig { log2_block_units: 4, offset_width: 12, sample_width: 64, use_simd: true };
+    for (k, (cfg, n)) in [(SortedUintVecConfig::default(), 200u64), (SortedUintVecConfig::performance_optimized(), 70), (SortedUintVecConfig::memory_optimized(), 5), (SortedUintVecConfig::default(), 0), (wide, 20), (wide_simd, 40)].into_iter().enumerate() {
+        let mut acc = if k >= 4 { u64::MAX - 200 } else { 0u64 };
+        let r = &mut *r;
+        let mut below = |m: u64| if k >= 4 { r.below(4) } else { r.below(m) };
+        let vals: Vec<u64> = (0..n).map(|_| { acc += below(300); acc }).collect();
         let res = crate::util::guarded(|| -> Option<Vec<u8>> {
             let mut b = SortedUintVecBuilder::with_config(cfg);
             for &x in &vals { b.push(x).ok()?; }
